@@ -256,6 +256,15 @@ def run_case(case, model):
             hits.append(hit('c10.reply-paired-with-wrong-command', 'a returned Reply holds another command\'s reply',
                             observed={'slot': k, 'method': None, 'code': code, 'text': raw}, expected=reps[k].decode('latin-1')))
             break
+        # ... and all of it, once: the text lines of the script's k-th reply (every generated line carries a `line<j>` token), in order
+        import re as _re
+        want_lines = [x.decode() for x in _re.findall(rb'line\d+', reps[k])]
+        if k in hello_slots and code == '250':
+            want_lines = want_lines[:1]
+        if _re.findall(r'line\d+', raw or '') != want_lines:
+            hits.append(hit('c10.reply-text-not-the-servers', 'a returned Reply holds text lines other than those of the server\'s reply to that command (lost or repeated lines)',
+                            observed={'slot': k, 'code': code, 'text': raw, 'cuts': case['cuts'][:8]}, expected=reps[k].decode('latin-1')))
+            break
     if failed == 'BadReply' or failed.startswith('other:'):
         # every reply of the script is well formed: the client has no reason to reject one
         hits.append(hit('c10.well-formed-reply-rejected.' + failed.replace('other:', ''), 'the client failed on a script of well-formed replies',
